@@ -195,7 +195,13 @@ func c10GenData(t *rapid.T) c10Case {
 		if rapid.IntRange(0, 4).Draw(t, "daylevel") == 0 {
 			rel = fmt.Sprintf("2024/03/01/f%d_daily.parquet", k)
 		} else {
-			rel = fmt.Sprintf("2024/03/01/%02d/f%d.parquet", k, k)
+			// the same base name may occur in several hour partitions (backfills,
+			// imports): only the full relative path identifies a file
+			name := k
+			if rapid.Bool().Draw(t, "samebase") {
+				name = 0
+			}
+			rel = fmt.Sprintf("2024/03/01/%02d/f%d.parquet", k, name)
 		}
 		c.Files = append(c.Files, rel)
 		c.Extra = append(c.Extra, rapid.IntRange(0, 5).Draw(t, "extra") == 0)
